@@ -341,6 +341,19 @@ fn main()
 					if k % 2 == 0 { emit(format!("T {}", txt), &mut out); }
 					if k % 8 == 0 { emit(format!("S {}", txt), &mut out); }
 				}
+				// lists of literal trees ({a, b, c} and f(a, b, c)): every element is evaluated, an error in ANY element is reported
+				let n = if thorough { 400_000 } else { 12_000 };
+				for k in 0..n
+				{
+					let len = 1 + rng.below(4) as usize;
+					let mut els: Vec<Arg> = (0..len).map(|_| { let d = 1 + rng.below(3) as u32; lit_tree(&mut rng, d, &lv) }).collect();
+					// often: one element that leaves the range, at a random place
+					if rng.chance(1, 2) { let at = rng.below(len as u64) as usize; els[at] = match rng.below(4) { 0 => bin(0, c(i64::MAX), c(1 + rng.below(5) as i64)), 1 => bin(2, c(1 << 62), c(2)), 2 => bin(3, c(rng.below(9) as i64), c(0)), _ => neg(c(i64::MIN)) }; }
+					let t = if k % 2 == 0 { Argument::Sequence(els) } else { Argument::Function{name: trion::asm::arcob::Arcob::Arced("f".to_string().into()), args: els} };
+					let txt = fmt_arg(&t);
+					emit(format!("S {}", txt), &mut out);
+					emit(format!("E ; {}", txt), &mut out);
+				}
 			}
 			else
 			{
